@@ -12,6 +12,7 @@ import IrVerif.Lemmas.NamesOwned
 import IrVerif.Lemmas.NamesRename
 import IrVerif.Lemmas.NamesGen
 import IrVerif.Lemmas.NamesGenPost
+import IrVerif.Lemmas.NamesRec
 namespace IrVerif.Names
 
 /-! ### C15_loop_terminates -/
@@ -900,5 +901,26 @@ theorem C15_illscoped_nodes (w : World) (tops : List Top) (hok : InitsOk w)
 
 /-- the ill-scoped witness of `C15_scoping_necessary`: its node names still come out unique per graph -/
 example : ((List.range 3).map (fixModel exWS [exTS]).1.nname) = [some "A", some "I1", some "I2"] := by decide
+
+
+/-- **C15_illscoped_values**: what the pass guarantees for **value names** on ill-scoped models — no scoping
+hypothesis (initializers keyed by names, closed, node objects occurring once, top-level graphs disjoint).  (1) Every
+value the pass can meet (mentioned under a top-level graph, or an initializer of a graph under it) ends with a
+non-empty name.  (2) For every graph, the values *recorded* in its scope — those recorded in the enclosing scopes
+before the graph was entered, followed by the values **first met** in the graph itself (`recScopes`) — end with
+pairwise different names.  What is lost without the scoping rule is exactly the comparison with a value that is used
+in the graph but was first met in a scope that is not visible from it (`C15_scoping_necessary`: it is skipped, its
+name is not in the used set).  On a well-scoped model every value met in a graph is recorded in its scope chain and
+this is `C15_namefix_post`. -/
+theorem C15_illscoped_values (w : World) (tops : List Top) (hok : InitsOk w)
+    (hyp : ∀ t ∈ tops, Closed w.initOf t ∧ (allNodes t.body).Nodup) (hdisj : tops.Pairwise (TopDisj w.initOf)) :
+    ∀ t ∈ tops,
+      (∀ L ∈ recScopes w.inits t.tr [] [], InjT (fixModel w tops).1.vname L)
+      ∧ (∀ u, TopC w.initOf t u → truthy ((fixModel w tops).1.vname u) = true) :=
+  fixModel_rec w.inits tops w hok (fun g u => hok.mem_iff g u) hyp hdisj
+
+/-- the ill-scoped witness: the free value 0 is recorded in the scope of the first sibling only; the second sibling's
+list does not contain it -/
+example : recScopes exWS.inits exTS.tr [] [] = [[3], [3, 1, 0], [3, 2]] := by decide
 
 end IrVerif.Names
